@@ -51,40 +51,60 @@ func runSYM(c *Ctx, s *Sink) {
 		}
 		key := funcName(p, fd) + ":one-symbol-class"
 		var iupac, bytesCls []string
-		ast.Inspect(fd.Body, func(n ast.Node) bool {
-			switch x := n.(type) {
-			case *ast.CallExpr:
-				fn := fullName(callee(info, x))
-				switch {
-				case strings.Contains(fn, "/pkg/obialign.FastLCS"):
-					iupac = append(iupac, c.Pos(x.Pos()))
-				case strings.HasSuffix(fn, "/pkg/obialign.D1Or0"):
-					bytesCls = append(bytesCls, c.Pos(x.Pos())+" (D1Or0)")
-				case strings.HasSuffix(fn, "bytes.Equal") || strings.HasSuffix(fn, "bytes.Compare"):
-					bytesCls = append(bytesCls, c.Pos(x.Pos())+" (bytes)")
-				}
-			case *ast.BinaryExpr:
-				if x.Op == token.EQL || x.Op == token.NEQ {
-					// equality of two values derived from Sequence()
-					seqDerived := func(e ast.Expr) bool {
-						d := false
-						ast.Inspect(e, func(m ast.Node) bool {
-							if call, ok := m.(*ast.CallExpr); ok {
-								if f := callee(info, call); f != nil && (f.Name() == "Sequence" || f.Name() == "String") && strings.HasSuffix(fullName(f), "BioSequence)."+f.Name()) {
-									d = true
-								}
+		// the bodies searched: the function itself and the functions of its package it calls, two levels down (helpers)
+		bodies := []ast.Node{fd.Body}
+		seenD := map[*ast.FuncDecl]bool{fd: true}
+		for level := 0; level < 2; level++ {
+			for _, b := range append([]ast.Node(nil), bodies...) {
+				ast.Inspect(b, func(n ast.Node) bool {
+					if call, ok := n.(*ast.CallExpr); ok {
+						if f := callee(info, call); f != nil && f.Pkg() == p.Types {
+							if d, _ := c.DeclOf(f); d != nil && d.Body != nil && !seenD[d] {
+								seenD[d] = true
+								bodies = append(bodies, d.Body)
 							}
-							return true
-						})
-						return d
+						}
 					}
-					if seqDerived(x.X) && seqDerived(x.Y) {
-						bytesCls = append(bytesCls, c.Pos(x.Pos())+" (equality of the nucleotide strings)")
+					return true
+				})
+			}
+		}
+		for _, body := range bodies {
+			ast.Inspect(body, func(n ast.Node) bool {
+				switch x := n.(type) {
+				case *ast.CallExpr:
+					fn := fullName(callee(info, x))
+					switch {
+					case strings.Contains(fn, "/pkg/obialign.FastLCS"):
+						iupac = append(iupac, c.Pos(x.Pos()))
+					case strings.HasSuffix(fn, "/pkg/obialign.D1Or0"):
+						bytesCls = append(bytesCls, c.Pos(x.Pos())+" (D1Or0)")
+					case strings.HasSuffix(fn, "bytes.Equal") || strings.HasSuffix(fn, "bytes.Compare"):
+						bytesCls = append(bytesCls, c.Pos(x.Pos())+" (bytes)")
+					}
+				case *ast.BinaryExpr:
+					if x.Op == token.EQL || x.Op == token.NEQ {
+						// equality of two values derived from Sequence()
+						seqDerived := func(e ast.Expr) bool {
+							d := false
+							ast.Inspect(e, func(m ast.Node) bool {
+								if call, ok := m.(*ast.CallExpr); ok {
+									if f := callee(info, call); f != nil && (f.Name() == "Sequence" || f.Name() == "String") && strings.HasSuffix(fullName(f), "BioSequence)."+f.Name()) {
+										d = true
+									}
+								}
+								return true
+							})
+							return d
+						}
+						if seqDerived(x.X) && seqDerived(x.Y) {
+							bytesCls = append(bytesCls, c.Pos(x.Pos())+" (equality of the nucleotide strings)")
+						}
 					}
 				}
-			}
-			return true
-		})
+				return true
+			})
+		}
 		switch {
 		case len(iupac) > 0 && len(bytesCls) > 0:
 			s.Fail(nil, key, fd.Pos(), "the candidates are compared by IUPAC sets (FastLCSScore at "+iupac[0]+") and by bytes ("+strings.Join(bytesCls, ", ")+") depending on the current bound: a pair a/n is a match for the first and a difference for the second, so the best-match set and the taxon assigned depend on the order of the references")
